@@ -57,6 +57,18 @@ namespace Tins {
 
 const uint8_t IP::DEFAULT_TTL = 128;
 
+namespace {
+
+// Only End of Option List (type 0) and No Operation (type 1) consist of a single
+// type octet (RFC 791, section 3.1). The whole octet counts: a type with the copied
+// flag or a class set (e.g. 0x80, 0x21) is followed by a length octet, which is what
+// write_option emits for it.
+bool is_single_byte_option(const IP::option_identifier& id) {
+    return id.copied == 0 && id.op_class == IP::CONTROL && id.number <= IP::NOOP;
+}
+
+} // anonymous namespace
+
 PDU::metadata IP::extract_metadata(const uint8_t *buffer, uint32_t total_sz) {
     if (TINS_UNLIKELY(total_sz < sizeof(ip_header))) {
         throw malformed_packet();
@@ -322,9 +334,8 @@ uint32_t IP::calculate_options_size() const {
     uint32_t options_size = 0;
     for (options_type::const_iterator iter = options_.begin(); iter != options_.end(); ++iter) {
         options_size += sizeof(uint8_t);
-        const option_identifier option_id = iter->option();
         // Only add length field and data size for non [NOOP, EOL] options
-        if (option_id.op_class != CONTROL || option_id.number > NOOP) {
+        if (!is_single_byte_option(iter->option())) {
             options_size += sizeof(uint8_t) + iter->data_size();
         }
     }
